@@ -18,6 +18,7 @@ import (
 	"bytes"
 	"errors"
 	"fmt"
+	"runtime"
 	"strconv"
 	"strings"
 	"sync"
@@ -172,9 +173,6 @@ func (c *vpC38Case) run() ([]string, string) {
 			<-start
 			for _, k := range calls {
 				res := &vpC38Result{call: k}
-				rmu.Lock()
-				results = append(results, res)
-				rmu.Unlock()
 				req := AcquireRequest()
 				resp := AcquireResponse()
 				req.SetRequestURI("http://vp.test/r/" + strconv.Itoa(k.ID))
@@ -186,6 +184,10 @@ func (c *vpC38Case) run() ([]string, string) {
 				var err error
 				t0 := time.Now()
 				d := time.Duration(k.DeadlineMs) * time.Millisecond
+				rmu.Lock()
+				res.t0, res.deadline = t0, t0.Add(d)
+				results = append(results, res)
+				rmu.Unlock()
 				switch k.API {
 				case 0:
 					err = pc.DoDeadline(req, resp, t0.Add(d))
@@ -205,7 +207,9 @@ func (c *vpC38Case) run() ([]string, string) {
 				res.t0, res.t1, res.deadline, res.err, res.hdrID, res.bodyOK, res.returned = t0, t1, t0.Add(d), err, hdr, bodyOK, true
 				rmu.Unlock()
 				hist.add("call id=%d -> %v hdrID=%s (%.1fms)", k.ID, err, hdr, float64(t1.Sub(t0).Microseconds())/1000)
-				sample()
+				if k.API != 2 {
+					sample()
+				}
 				ReleaseRequest(req)
 				ReleaseResponse(resp)
 			}
@@ -259,10 +263,10 @@ func (c *vpC38Case) run() ([]string, string) {
 	hist.add("deadline workers finished by themselves: %v", onTime)
 	// Teardown: the origin answers everything promptly from now on and every stall is aborted, so
 	// deadline-less Do calls (and, if the property is broken, stuck deadline calls) can return.
+	close(samplerStop) // PendingRequests() re-creates retired workers, so stop sampling before quiescing
+	<-samplerDone
 	origin.startDrain()
 	allDone := waitNet(&wgAll, 10*time.Second)
-	close(samplerStop)
-	<-samplerDone
 	retired := false
 	if allDone {
 		retired = vpC04QuiescePipeline(pc, origin, 5*time.Second)
@@ -273,7 +277,23 @@ func (c *vpC38Case) run() ([]string, string) {
 
 	var viol []string
 	if !allDone {
-		viol = append(viol, "some calls had still not returned 10 s after the origin started to answer everything (goroutines left behind)")
+		var stuck []string
+		rmu.Lock()
+		for _, r := range results {
+			if !r.returned {
+				stuck = append(stuck, fmt.Sprintf("id=%d api=%d deadline=%dms seenByOrigin=%d", r.call.ID, r.call.API, r.call.DeadlineMs, origin.seenCount(r.call.ID)))
+			}
+		}
+		rmu.Unlock()
+		buf := make([]byte, 1<<20)
+		buf = buf[:runtime.Stack(buf, true)]
+		var stacks []string
+		for _, g := range strings.Split(string(buf), "\n\n") {
+			if strings.Contains(g, "pipelineConnClient") {
+				stacks = append(stacks, g)
+			}
+		}
+		viol = append(viol, fmt.Sprintf("calls had still not returned 10 s after the origin started to answer everything: %v\n%s", stuck, strings.Join(stacks, "\n\n")))
 	} else if !retired {
 		vpNote("C38: a PipelineClient worker did not retire within 5s of idling (goroutine left behind)")
 	}
@@ -353,7 +373,7 @@ func (c *vpC38Case) run() ([]string, string) {
 	if len(viol) == 0 {
 		return nil, ""
 	}
-	return viol, fmt.Sprintf("%d violation(s):\n  %s\nconfig: %+v\nhistory:\n%s", len(viol), strings.Join(viol, "\n  "), cfg, hist.dump(500))
+	return viol, fmt.Sprintf("%d violation(s):\n  %s\nconfig: %+v\nhistory:\n%s", len(viol), strings.Join(viol, "\n  "), cfg, hist.dump(3000))
 }
 
 func TestVP_C38_Deadlines(t *testing.T) {
